@@ -191,7 +191,7 @@ theorem setEX_deadline (s : MState) (now : Int) (k value : Bytes) (m : Meta) (ol
     (Api.setEX s now k value seconds).2 = .unit ∧
     Api.expOf (Api.setEX s now k value seconds).1 k = Spec.deadlineSec now seconds := by
   rw [setEX_eq]
-  have := writeCmd_liveWith h hs (some .strNil) .unit (actOn strOf (setExA k value (Spec.deadlineSec now seconds)))
+  have := writeCmd_liveWith h hs (some (.str [])) .unit (actOn strOf (setExA k value (Spec.deadlineSec now seconds)))
   cases old <;> exact this
 
 theorem setEX_deadline_new (s : MState) (now : Int) (k value : Bytes) (seconds : Int)
@@ -199,14 +199,14 @@ theorem setEX_deadline_new (s : MState) (now : Int) (k value : Bytes) (seconds :
     (Api.setEX s now k value seconds).2 = .unit ∧
     Api.expOf (Api.setEX s now k value seconds).1 k = Spec.deadlineSec now seconds := by
   rw [setEX_eq]
-  exact writeCmd_fresh h hs .strNil .unit _
+  exact writeCmd_fresh h hs (.str []) .unit _
 
 theorem setPX_deadline (s : MState) (now : Int) (k value : Bytes) (m : Meta) (old : DsStr.S) (ms : Int)
     (h : LiveWith s now k m (Api.strVal old)) (hs : AList.Sorted s.index) :
     (Api.setPX s now k value ms).2 = .unit ∧
     Api.expOf (Api.setPX s now k value ms).1 k = Spec.deadlineMs now ms := by
   rw [setPX_eq]
-  have := writeCmd_liveWith h hs (some .strNil) .unit (actOn strOf (setExA k value (Spec.deadlineMs now ms)))
+  have := writeCmd_liveWith h hs (some (.str [])) .unit (actOn strOf (setExA k value (Spec.deadlineMs now ms)))
   cases old <;> exact this
 
 theorem setPX_deadline_new (s : MState) (now : Int) (k value : Bytes) (ms : Int)
@@ -214,7 +214,7 @@ theorem setPX_deadline_new (s : MState) (now : Int) (k value : Bytes) (ms : Int)
     (Api.setPX s now k value ms).2 = .unit ∧
     Api.expOf (Api.setPX s now k value ms).1 k = Spec.deadlineMs now ms := by
   rw [setPX_eq]
-  exact writeCmd_fresh h hs .strNil .unit _
+  exact writeCmd_fresh h hs (.str []) .unit _
 
 /-! ### conditional forms
 
@@ -384,7 +384,7 @@ theorem set_clears_deadline (s : MState) (now : Int) (k value : Bytes) (m : Meta
     (h : LiveWith s now k m (Api.strVal old)) (hs : AList.Sorted s.index) :
     (Api.set s now k value false).2 = .unit ∧ Api.expOf (Api.set s now k value false).1 k = 0 := by
   rw [set_eq]
-  have := writeCmd_liveWith h hs (some .strNil) .unit (actOn strOf (setA k value false .unit))
+  have := writeCmd_liveWith h hs (some (.str [])) .unit (actOn strOf (setA k value false .unit))
   cases old <;> exact this
 
 /-- SET … KEEPTTL keeps it -/
@@ -392,7 +392,7 @@ theorem set_keepttl_keeps (s : MState) (now : Int) (k value : Bytes) (m : Meta) 
     (h : LiveWith s now k m (Api.strVal old)) (hs : AList.Sorted s.index) :
     (Api.set s now k value true).2 = .unit ∧ Api.expOf (Api.set s now k value true).1 k = m.exp := by
   rw [set_eq]
-  have := writeCmd_liveWith h hs (some .strNil) .unit (actOn strOf (setA k value true .unit))
+  have := writeCmd_liveWith h hs (some (.str [])) .unit (actOn strOf (setA k value true .unit))
   cases old <;> exact this
 
 /-- SET on a key with no visible record (absent or expired): no deadline, whatever KEEPTTL says -/
@@ -400,7 +400,7 @@ theorem set_new_no_deadline (s : MState) (now : Int) (k value : Bytes) (keep : B
     (h : live s now k = none) (hs : AList.Sorted s.index) :
     (Api.set s now k value keep).2 = .unit ∧ Api.expOf (Api.set s now k value keep).1 k = 0 := by
   rw [set_eq]
-  have := writeCmd_fresh h hs .strNil .unit (actOn strOf (setA k value keep .unit))
+  have := writeCmd_fresh h hs (.str []) .unit (actOn strOf (setA k value keep .unit))
   cases keep <;> exact this
 
 /-- after SET the key is live and holds the new value (so the handler's `SET k v EX s` = `Set; Expire`
@@ -408,7 +408,7 @@ theorem set_new_no_deadline (s : MState) (now : Int) (k value : Bytes) (keep : B
 theorem set_live_after (s : MState) (now : Int) (k value : Bytes) (keep : Bool) (m : Meta) (old : DsStr.S)
     (h : LiveWith s now k m (Api.strVal old)) (hs : AList.Sorted s.index) :
     ∃ m', LiveWith (Api.set s now k value keep).1 now k m' (.str value) := by
-  obtain ⟨a, b, _, _, _, _⟩ := Proofs.C10.writeKey_liveWith h hs (some .strNil)
+  obtain ⟨a, b, _, _, _, _⟩ := Proofs.C10.writeKey_liveWith h hs (some (.str []))
   rw [set_eq]
   refine writeCmd_liveAfter hs _ _ _ (.str value) a ?_ ?_ ?_
   · rw [b]; cases old <;> rfl
@@ -420,7 +420,7 @@ theorem set_live_after (s : MState) (now : Int) (k value : Bytes) (keep : Bool) 
 theorem set_live_after_new (s : MState) (now : Int) (k value : Bytes) (keep : Bool)
     (h : live s now k = none) (hs : AList.Sorted s.index) :
     ∃ m', LiveWith (Api.set s now k value keep).1 now k m' (.str value) := by
-  obtain ⟨a, b, _, _, _, _⟩ := writeKey_fresh h hs .strNil
+  obtain ⟨a, b, _, _, _, _⟩ := writeKey_fresh h hs (.str [])
   rw [set_eq]
   refine writeCmd_liveAfter hs _ _ _ (.str value) a ?_ ?_ ?_
   · rw [b]; rfl
@@ -464,7 +464,7 @@ theorem getSet_clears (s : MState) (now : Int) (k value : Bytes) (m : Meta) (old
     (h : LiveWith s now k m (Api.strVal old)) (hs : AList.Sorted s.index) :
     (Api.getSet s now k value).2 = .bytes old ∧ Api.expOf (Api.getSet s now k value).1 k = 0 := by
   rw [getSet_eq]
-  have := writeCmd_liveWith h hs (some .strNil) .unit (actOn strOf (getSetA k value))
+  have := writeCmd_liveWith h hs (some (.str [])) .unit (actOn strOf (getSetA k value))
   cases old <;> exact this
 
 /-- PERSIST: reply 1 iff there was a deadline; afterwards there is none -/
